@@ -75,6 +75,14 @@ func (cs *canaries) scan(text string) string {
 // c19Scope replaces some variables of a generated scope by canary-carrying
 // marked values and returns the names that carry canaries.
 func c19Scope(r *rand.Rand, sc *gen.Scope, cs *canaries) []string {
+	return c19ScopeOpt(r, sc, cs, true)
+}
+
+// c19ScopeOpt: keyObjects adds the objects whose attribute NAMES are secrets.
+// They are left out of scopes the expression generator draws from, because it
+// spells attribute names it finds in the scope into the source text, and a
+// canary must never occur in source text.
+func c19ScopeOpt(r *rand.Rand, sc *gen.Scope, cs *canaries, keyObjects bool) []string {
 	var carriers []string
 	str := func() cty.Value {
 		s := newCanaryStr(r)
@@ -129,7 +137,7 @@ func c19Scope(r *rand.Rand, sc *gen.Scope, cs *canaries) []string {
 	}
 	// objects whose attribute NAMES are secrets (built from marked keys): whole
 	// object marked, with exactly one and with several attributes, and nested
-	{
+	if keyObjects {
 		k1, k2, k3 := newCanaryStr(r), newCanaryStr(r), newCanaryStr(r)
 		cs.strs = append(cs.strs, k1, k2, k3)
 		cs.keys = []string{k1, k2, k3}
@@ -245,7 +253,7 @@ func c19Case(c *core.Case) {
 	}
 	sc := gen.NewScope(r, gen.ValOpts{StrLevel: 0})
 	cs := &canaries{}
-	carriers := c19Scope(r, sc, cs)
+	carriers := c19ScopeOpt(r, sc, cs, false)
 	g := gen.NewG(r, sc, 0.5)
 	g.StrLevel = 0
 	ast := g.Expr(gen.WAny, 1+r.Intn(4))
